@@ -26,6 +26,18 @@ def run(ctx, prefix=PREFIX):
     ctx.exhaustive = p["limit"] is None or len(edges) <= p["limit"]
     ctx.extra["model_edges"] = len(edges)
     ctx.extra["design_level_D14_counterexample"] = section.design_counterexample(ctx, p["names"], p["keys"], p["maxlen"])
+    # histories that put an item back after it was deleted (it keeps its stale session name): SectionReuse, model only; the
+    # image of "re-number by the session name of the new item" (seeded change C13-19) must break the refinement
+    tset = lambda xs: "{" + ", ".join('"%s"' % x for x in xs) + "}"
+    rnames, rkeys = ((["A", ""], ["A", "A:1"]) if ctx.tier != "thorough" else (["A", "", "A:1"], ["A", "A:1", "A:2", "UNKNOWN", "Z"]))
+    rcfg = ("SPECIFICATION Spec2\nCONSTANTS\n  Names = %s\n  KeyPool = %s\n  MaxLen = 3\n  MaxDepth = 0\n  Emit = FALSE\n  RenumberBy = \"%s\"\n"
+            "PROPERTY Refines2\n%sVIEW View2\nCHECK_DEADLOCK FALSE\n")
+    ctx.model_check("SectionReuse", rcfg % (tset(rnames), tset(rkeys), "useful", "INVARIANT DistinctOrKnown\nINVARIANT ResolvesInv\n"),
+                    label="SectionReuse refines Section (items put back after deletion; names=%s)" % rnames, workers=16, timeout=3000)
+    rs = tlc.run("SectionReuse", rcfg % (tset(["A", ""]), tset(["A", "A:1"]), "session", ""), workers=4, timeout=600, allow_violation=True)
+    if rs.violation != "Refines2":
+        raise tlc.MachineryError("SectionReuse with RenumberBy = session does not violate Refines2 (%r): the model does not react" % rs.violation)
+    ctx.extra["design_level_sensitivity_renumber_by_session_name"] = True
     if ctx.tier == "thorough":
         # deeper refinement checks of the algorithm layer, model only (no replay): more names, longer sections
         for nm, ks, ml in ((["A", "a", "B", "", "A:1"], ["A", "a", "B", "A:1", "A:2", "UNKNOWN", "Z"], 3),
